@@ -210,3 +210,26 @@ theorem decider_source_fragments_c05 {ε : Type} (rr : Rec ε) (l : Bobo.Run.Run
     Bobo.Gen.DeciderFrag.processEventLists = "r_halt_com+p_halt_com,r_halt_incom,r_upd+p_upd" :=
   ⟨gen_ahead_eq rr l, gen_filters_eq c hc s comp halt upd, gen_remoteOrder_eq, gen_localOrder_eq, gen_processEventLists_eq⟩
 end Bobo.Decider
+
+/-! G-tie (C05): the local path of decider.py (`_check_against_runs`, `_check_against_patterns`) as it stands now. -/
+namespace Bobo.Decider
+/-- per run: `process` alone inside the `try`, then the classification table generated from the source; for a
+freshly started run: the decision table generated from the source; and the shapes of the two loops. -/
+theorem decider_local_fragments_c05 {ε : Type} (e : ε) (ph : String) (acc : RunsAcc ε) (r : LRun ε)
+    (haltedNew completeNew singleton noRuns : Bool) :
+    (checkRun e ph acc r =
+      match (Bobo.Run.process r.pat r.run e).1 with
+      | .ok changed =>
+        applyCls ph acc { r with run := (Bobo.Run.process r.pat r.run e).2 }
+          (Bobo.Gen.DeciderFrag.classify changed (Bobo.Run.process r.pat r.run e).2.halted
+            ((Bobo.Run.process r.pat r.run e).2.isComplete r.pat.blocks.length))
+      | _ => { acc with keep := acc.keep ++ [{ r with run := (Bobo.Run.process r.pat r.run e).2 }] }) ∧
+    Bobo.Gen.DeciderFrag.startDecision haltedNew completeNew singleton noRuns =
+      (if haltedNew && completeNew then .completeAtOnce else if !singleton || noRuns then .store else .skip) ∧
+    Bobo.Gen.DeciderFrag.runsShape =
+      ["per-run:try-process-only;classify", "remove-finished-after-all-runs", "return:completed,halted,updated"] ∧
+    Bobo.Gen.DeciderFrag.patternsShape =
+      ["first-block:any-predicate,raise-counts-as-no,empty-history", "new-run:index-1,history-{group0:[event]},fresh-id",
+       "return:completed,updated"] :=
+  ⟨gen_checkRun_eq e ph acc r, gen_startDecision_eq _ _ _ _, gen_runsShape_eq, gen_patternsShape_eq⟩
+end Bobo.Decider
